@@ -528,6 +528,13 @@ impl Body {
             Body::Split(r) => Box::new(r),
         }
     }
+    /// without the library's `charsets` feature there is no text reader: the plain reader stands in (the
+    /// payloads read this way are ASCII)
+    #[cfg(not(feature = "charsets"))]
+    fn text_reader(self, _charset: Option<&'static encoding_rs::Encoding>) -> Box<dyn Read> {
+        self.reader()
+    }
+    #[cfg(feature = "charsets")]
     fn text_reader(self, charset: Option<&'static encoding_rs::Encoding>) -> Box<dyn Read> {
         match (self, charset) {
             (Body::Whole(r), None) => Box::new(r.text_reader()),
